@@ -202,12 +202,11 @@ package entities
 //@ pure elemsWF(L []InfoElementWithValue, n int) bool = forall j in [0, n): wfElem(L[j])
 //@ // bufOK: a cached buffer of the right length holds the RFC bytes of every encodable element
 //@ pure bufOK(d *dataRecord, L []InfoElementWithValue, n int) bool =
-//@     forall j in [0, n): old(encodable(L[j])) ==> forall q in [sumWire(L, j), sumWire(L, j+1)): d.buffer[q] == old(wireByte(L[j], q - sumWire(L, j)))
+//@     forall j in [0, n): old(encodable(L[j])) ==> forall q in [sumWire(L, j), sumWire(L, j) + wireLen(L[j])): d.buffer[q] == old(wireByte(L[j], q - sumWire(L, j)))
 //@ // recInv: representation invariant of an encoding-side data record with n = fieldCount filled slots
 //@ pure recInv(d *dataRecord) bool = d != nil && d.fieldCount <= len(d.orderedElementList)
 //@     && elemsWF(d.orderedElementList, d.fieldCount)
-//@     && (!d.isDecoding ==> d.len == sumWire(d.orderedElementList, d.fieldCount) && 0 <= d.len)
-//@     && (forall j in [0, d.fieldCount): dt(d.orderedElementList[j]) == OctetArray ==> arr(oaval(d.orderedElementList[j])) != arr(d.buffer) || isnil(d.buffer))
+//@     && (d.isDecoding ? d.len == 0 : (d.len == sumWire(d.orderedElementList, d.fieldCount) && 0 <= d.len))
 
 //@ func (d *dataRecord) GetRecordLength() (r)
 //@   requires recv: d != nil
@@ -216,10 +215,10 @@ package entities
 //@ func (d *dataRecord) GetBuffer() (buf)
 //@   requires inv:   recInv(d)
 //@   requires full:  d.fieldCount == len(d.orderedElementList)
-//@   requires cache: !d.isDecoding && len(d.buffer) == d.len ==> bufOK(d, d.orderedElementList, len(d.orderedElementList))
 //@   ensures  same:  buf == d.buffer
 //@   ensures  len:   !d.isDecoding ==> len(buf) == d.len
-//@   ensures  bytes: !d.isDecoding ==> bufOK(d, d.orderedElementList, len(d.orderedElementList))
+//@   ensures  cached: old(len(d.buffer) == d.len || d.isDecoding) ==> d.buffer == old(d.buffer)
+//@   ensures  bytes: !d.isDecoding && old(len(d.buffer) != d.len) ==> fresh(d.buffer) && bufOK(d, d.orderedElementList, len(d.orderedElementList))
 //@   ensures  inv:   recInv(d)
 //@   modifies d.buffer
 //@   loop 1 invariant cnt:  0 <= $i && $i <= len(d.orderedElementList)
@@ -227,3 +226,242 @@ package entities
 //@   loop 1 invariant buf:  fresh(d.buffer) && len(d.buffer) == d.len && !d.isDecoding
 //@   loop 1 invariant done: bufOK(d, d.orderedElementList, $i)
 //@   loop 1 decreases len(d.orderedElementList) - $i
+
+//@ func NewDataRecord(id, numElements, numExtraElements, isDecoding) (r)
+//@   requires n:  0 <= numElements && 0 <= numExtraElements
+//@   ensures  r:  r != nil && fresh(r) && r.fieldCount == 0 && r.templateID == id && r.isDecoding == isDecoding && r.len == 0
+//@   ensures  l:  len(r.orderedElementList) == numElements && fresh(r.orderedElementList) && isnil(r.buffer)
+//@   ensures  z:  forall j in [0, numElements): isnil(r.orderedElementList[j])
+//@
+//@ func NewDataRecordFromElements(id, elements, isDecoding) (r)
+//@   requires wf: elemsWF(elements, len(elements))
+//@   ensures  r:  r != nil && fresh(r) && r.templateID == id && r.isDecoding == isDecoding && isnil(r.buffer)
+//@   ensures  l:  r.orderedElementList == elements && r.fieldCount == len(elements) % 65536
+//@   ensures  len: r.len == (isDecoding ? 0 : sumWire(elements, len(elements))) && 0 <= r.len
+//@   loop 1 invariant cnt: 0 <= $i && $i <= len(elements)
+//@   loop 1 invariant sum: length == sumWire(elements, $i) && 0 <= length
+//@   loop 1 decreases len(elements) - $i
+//@
+//@ func (d *dataRecord) AddInfoElement(element) (err)
+//@   requires inv:  recInv(d)
+//@   requires wf:   wfElem(element)
+//@   requires cnt:  d.fieldCount < 65535
+//@   ensures  err:  err == nil
+//@   ensures  cnt:  d.fieldCount == old(d.fieldCount) + 1
+//@   ensures  new:  d.orderedElementList[old(d.fieldCount)] == element
+//@   ensures  keep: forall j in [0, old(d.fieldCount)): d.orderedElementList[j] == old(d.orderedElementList[j])
+//@   ensures  lenl: len(d.orderedElementList) == (old(len(d.orderedElementList)) <= old(d.fieldCount) ? old(len(d.orderedElementList)) + 1 : old(len(d.orderedElementList)))
+//@   ensures  len:  d.len == old(d.len) + (d.isDecoding ? 0 : wireLen(element))
+//@   ensures  inv:  recInv(d)
+//@   modifies d.len, d.fieldCount, d.orderedElementList, d.orderedElementList[*]
+
+// ---------------------------------------------------------------------------
+// Template records (C16 lengths; C02 field specifiers per RFC 7011 §3.2)
+// ---------------------------------------------------------------------------
+
+//@ pure specLen(e *InfoElement) int = e.EnterpriseId != 0 ? 8 : 4
+//@ pure minLen(e *InfoElement) int = e.Len == 65535 ? 1 : e.Len
+//@ // specByte(e, k): byte k of the field specifier of e: element id with the
+//@ // enterprise bit set iff EnterpriseId != 0, field length, then the 4-byte enterprise number
+//@ pure specByte(e *InfoElement, k int) int =
+//@       k == 0 ? (e.EnterpriseId != 0 && e.ElementId / 256 < 128 ? e.ElementId / 256 + 128 : e.ElementId / 256)
+//@     : k == 1 ? e.ElementId % 256
+//@     : k == 2 ? e.Len / 256
+//@     : k == 3 ? e.Len % 256
+//@     : byteAt4(e.EnterpriseId, k - 4)
+//@ pure sumSpec(L []InfoElementWithValue, n int) int = sum(j in [0, n): specLen(ie(L[j])))
+//@ pure sumMin(L []InfoElementWithValue, n int) int = sum(j in [0, n): minLen(ie(L[j])))
+//@ pure elemsNN(L []InfoElementWithValue, n int) bool = forall j in [0, n): !isnil(L[j]) && ie(L[j]) != nil
+//@ // tplInv: the first n elements of L have their field specifiers in t.buffer after the 4-byte record header
+//@ pure tplInv(t *templateRecord, L []InfoElementWithValue, n int) bool = t != nil && elemsNN(L, n)
+//@     && len(t.buffer) == 4 + sumSpec(L, n)
+//@     && t.minDataRecLength == sumMin(L, n) % 65536
+//@     && (forall j in [0, n): forall q in [4 + sumSpec(L, j), 4 + sumSpec(L, j) + specLen(ie(L[j]))): t.buffer[q] == specByte(ie(L[j]), q - 4 - sumSpec(L, j)))
+
+//@ func (t *templateRecord) addInfoElement(infoElement) ()
+//@   requires recv: t != nil && infoElement != nil
+//@   ensures  len:  len(t.buffer) == old(len(t.buffer)) + specLen(infoElement)
+//@   ensures  keep: forall q in [0, old(len(t.buffer))): t.buffer[q] == old(t.buffer[q])
+//@   ensures  spec: forall q in [old(len(t.buffer)), len(t.buffer)): t.buffer[q] == specByte(infoElement, q - old(len(t.buffer)))
+//@   ensures  min:  t.minDataRecLength == (old(t.minDataRecLength) + minLen(infoElement)) % 65536
+//@   ensures  nn:   !isnil(t.buffer) && (arr(t.buffer) == old(arr(t.buffer)) || fresh(t.buffer))
+//@   modifies t.buffer, t.minDataRecLength, t.buffer[*]
+//@
+//@ func (t *templateRecord) PrepareRecord() (err)
+//@   requires recv: t != nil && len(t.buffer) >= 4
+//@   ensures  err:  err == nil
+//@   ensures  id:   be16(t.buffer, 0) == t.templateID && be16(t.buffer, 2) == t.fieldCount
+//@   ensures  keep: forall q in [4, len(t.buffer)): t.buffer[q] == old(t.buffer[q])
+//@   modifies t.buffer[0:4]
+//@
+//@ func (t *templateRecord) GetBuffer() (buf)
+//@   requires recv: t != nil
+//@   ensures  same: buf == t.buffer
+//@
+//@ func (t *templateRecord) GetRecordLength() (r)
+//@   requires recv: t != nil
+//@   ensures  len:  r == len(t.buffer)
+//@
+//@ func (t *templateRecord) GetMinDataRecordLen() (r)
+//@   requires recv: t != nil
+//@   ensures  min:  r == t.minDataRecLength
+//@
+//@ func NewTemplateRecord(id, numElements, isDecoding) (r)
+//@   requires n: 0 <= numElements
+//@   ensures  r: r != nil && fresh(r) && r.templateID == id && r.fieldCount == numElements % 65536 && r.isDecoding == isDecoding
+//@   ensures  b: len(r.buffer) == 4 && fresh(r.buffer) && r.minDataRecLength == 0 && r.index == 0
+//@   ensures  l: len(r.orderedElementList) == numElements && fresh(r.orderedElementList)
+//@
+//@ func NewTemplateRecordFromElements(id, elements, isDecoding) (r)
+//@   requires nn: elemsNN(elements, len(elements))
+//@   ensures  r:  r != nil && fresh(r) && r.templateID == id && r.fieldCount == len(elements) % 65536 && r.isDecoding == isDecoding
+//@   ensures  l:  r.orderedElementList == elements && r.index == len(elements) && fresh(r.buffer)
+//@   ensures  inv: tplInv(r, elements, len(elements))
+//@   loop 1 invariant cnt: 0 <= $i && $i <= len(elements)
+//@   loop 1 invariant inv: tplInv(r, elements, $i) && r != nil && fresh(r) && fresh(r.buffer)
+//@   loop 1 decreases len(elements) - $i
+//@
+//@ func (t *templateRecord) AddInfoElement(element) (err)
+//@   requires inv:  tplInv(t, t.orderedElementList, t.index)
+//@   requires el:   !isnil(element) && ie(element) != nil
+//@   requires idx:  0 <= t.index && t.index < len(t.orderedElementList)
+//@   ensures  ok:   err == nil ==> t.index == old(t.index) + 1 && t.orderedElementList[old(t.index)] == element && tplInv(t, t.orderedElementList, t.index)
+//@   ensures  keep: forall j in [0, old(t.index)): t.orderedElementList[j] == old(t.orderedElementList[j])
+//@   ensures  fail: err != nil ==> t.index == old(t.index) && tplInv(t, t.orderedElementList, t.index)
+//@   ensures  same: t.orderedElementList == old(t.orderedElementList)
+//@   modifies t.buffer, t.minDataRecLength, t.buffer[*], t.index, t.orderedElementList[*]
+
+// ---------------------------------------------------------------------------
+// Sets (C16: length == 4 + sum of record lengths; add paths equivalent; reset == new)
+// ---------------------------------------------------------------------------
+
+//@ pure recLen(r Record) int = is(r, *dataRecord) ? max(r.(*dataRecord).len, 0) : len(r.(*templateRecord).buffer)
+//@ pure sumRec(R []Record, n int) int = sum(i in [0, n): recLen(R[i]))
+//@ pure dataOK(d *dataRecord) bool = recInv(d) && d.fieldCount == len(d.orderedElementList)
+//@ pure tplOK(t *templateRecord) bool = tplInv(t, t.orderedElementList, len(t.orderedElementList))
+//@     && be16(t.buffer, 0) == t.templateID && be16(t.buffer, 2) == t.fieldCount && t.fieldCount == len(t.orderedElementList) % 65536
+//@ pure recOK(r Record) bool = (is(r, *dataRecord) && dataOK(r.(*dataRecord))) || (is(r, *templateRecord) && tplOK(r.(*templateRecord)))
+//@ // setInv: representation invariant of a set (the 4 of the set header is not counted in decoding mode)
+//@ pure setInv(s *set) bool = s != nil && (!s.isDecoding ==> len(s.headerBuffer) == 4)
+//@     && s.length == (s.isDecoding ? 0 : 4) + sumRec(s.records, len(s.records))
+//@ // recsOK: every record of the set satisfies its record invariant. Established record by record:
+//@ // each add operation ensures `newrec` (the added record) and `oldrecs` (all earlier ones, unchanged);
+//@ // the step from these two to recsOK of the extended set is lemma range_split (proved for an abstract predicate).
+//@ pure recsOK(s *set) bool = forall i in [0, len(s.records)): recOK(s.records[i])
+//@ // recSafe: the part of recOK that serialization needs in order to be memory safe and length-exact
+//@ // (implied by recOK; the byte-level content of template records stays a record-level fact)
+//@ pure recSafe(r Record) bool = (is(r, *dataRecord) && dataOK(r.(*dataRecord))) || (is(r, *templateRecord) && r.(*templateRecord) != nil)
+//@ pure recsSafe(s *set) bool = forall i in [0, len(s.records)): recSafe(s.records[i])
+//@ // the record an add operation must produce for (elements, templateID): the same for every add path
+//@ pure dataView(d *dataRecord, elements []InfoElementWithValue, id int) bool = dataOK(d) && d.templateID == id && isnil(d.buffer)
+//@     && len(d.orderedElementList) == len(elements) && (forall j in [0, len(elements)): d.orderedElementList[j] == elements[j])
+//@ pure tplView(t *templateRecord, elements []InfoElementWithValue, id int) bool = tplOK(t) && t.templateID == id
+//@     && len(t.orderedElementList) == len(elements) && (forall j in [0, len(elements)): t.orderedElementList[j] == elements[j])
+//@ pure addedView(r Record, elements []InfoElementWithValue, id int, ty int) bool =
+//@     (ty == Data ==> is(r, *dataRecord) && dataView(r.(*dataRecord), elements, id))
+//@     && (ty == Template ==> is(r, *templateRecord) && tplView(r.(*templateRecord), elements, id))
+
+//@ abstract absP(i int) bool
+//@ lemma range_split(n int): (forall i in [0, n): absP(i)) && absP(n) ==> (forall i in [0, n+1): absP(i))
+//@
+//@ func NewSet(isDecoding) (r)
+//@   ensures r:   r != nil && fresh(r) && r.isDecoding == isDecoding && len(r.records) == 0 && r.setType == Template
+//@   ensures len: r.length == (isDecoding ? 0 : 4)
+//@   ensures hdr: isDecoding ? isnil(r.headerBuffer) : (len(r.headerBuffer) == 4 && fresh(r.headerBuffer) && (forall q in [0, 4): r.headerBuffer[q] == 0))
+//@   ensures inv: setInv(r)
+//@
+//@ func (s *set) PrepareSet(setType, templateID) (err)
+//@   requires recv: s != nil && (!s.isDecoding ==> len(s.headerBuffer) == 4)
+//@   ensures  undef: setType == Undefined ==> err != nil && s.setType == old(s.setType)
+//@   ensures  ok:    setType != Undefined ==> err == nil && s.setType == setType
+//@   ensures  hdr:   setType != Undefined && !s.isDecoding ==> (setType == Template ==> be16(s.headerBuffer, 0) == 2) && (setType == Data ==> be16(s.headerBuffer, 0) == templateID)
+//@   ensures  keep:  forall q in [2, 4): s.headerBuffer[q] == old(s.headerBuffer[q])
+//@   modifies s.setType, s.headerBuffer[0:2]
+//@
+//@ func (s *set) ResetSet() ()
+//@   requires recv: s != nil
+//@   ensures  rec:  len(s.records) == 0 && s.setType == Undefined && s.isDecoding == old(s.isDecoding)
+//@   ensures  enc:  !s.isDecoding ==> s.length == 4 && len(s.headerBuffer) == 4 && fresh(s.headerBuffer) && (forall q in [0, 4): s.headerBuffer[q] == 0)
+//@   ensures  inv:  !s.isDecoding ==> setInv(s)
+//@   modifies s.headerBuffer, s.length, s.setType, s.records
+//@
+//@ func (s *set) UpdateLenInHeader() ()
+//@   requires recv: s != nil && (!s.isDecoding ==> len(s.headerBuffer) == 4)
+//@   ensures  len:  !s.isDecoding ==> be16(s.headerBuffer, 2) == s.length % 65536
+//@   ensures  keep: forall q in [0, 2): s.headerBuffer[q] == old(s.headerBuffer[q])
+//@   modifies s.headerBuffer[2:4]
+//@
+//@ func (s *set) GetSetLength() (r)
+//@   requires recv: s != nil
+//@   ensures  len: r == s.length
+//@
+//@ func (s *set) GetNumberOfRecords() (r)
+//@   requires recv: s != nil
+//@   ensures  n: r == len(s.records) % 4294967296
+//@
+//@ func (s *set) AddRecordV2(elements, templateID) (err)
+//@   requires inv: setInv(s) && recsSafe(s)
+//@   requires el:  (s.setType == Data ==> elemsWF(elements, len(elements))) && (s.setType == Template ==> elemsNN(elements, len(elements)))
+//@   requires cnt: len(elements) <= 65535
+//@   ensures  ok:  (err == nil) <==> (old(s.setType) == Data || old(s.setType) == Template)
+//@   ensures  added: err == nil ==> len(s.records) == old(len(s.records)) + 1 && addedView(s.records[old(len(s.records))], elements, templateID, s.setType)
+//@   ensures  keep: forall i in [0, old(len(s.records))): s.records[i] == old(s.records[i])
+//@   ensures  errsame: err != nil ==> s.records == old(s.records) && s.length == old(s.length)
+//@   ensures  len: err == nil ==> s.length == old(s.length) + recLen(s.records[old(len(s.records))])
+//@   ensures  oldrecs: forall i in [0, old(len(s.records))): recSafe(s.records[i])
+//@   ensures  newrec:  err == nil ==> recOK(s.records[old(len(s.records))])
+//@   ensures  newdec:  err == nil && s.setType == Data ==> s.records[old(len(s.records))].(*dataRecord).isDecoding == s.isDecoding
+//@   ensures  inv: setInv(s)
+//@   modifies s.records, s.length, s.records[*]
+//@
+//@ func (s *set) AddRecordWithExtraElements(elements, numExtraElements, templateID) (err)
+//@   requires inv: setInv(s) && recsSafe(s)
+//@   requires el:  (s.setType == Data ==> elemsWF(elements, len(elements))) && (s.setType == Template ==> elemsNN(elements, len(elements)))
+//@   requires cnt: len(elements) <= 65535 && 0 <= numExtraElements
+//@   ensures  okdata: old(s.setType) == Data ==> err == nil
+//@   ensures  errty:  old(s.setType) != Data && old(s.setType) != Template ==> err != nil
+//@   ensures  added: err == nil ==> len(s.records) == old(len(s.records)) + 1 && addedView(s.records[old(len(s.records))], elements, templateID, s.setType)
+//@   ensures  keep: forall i in [0, old(len(s.records))): s.records[i] == old(s.records[i])
+//@   ensures  errsame: err != nil ==> s.records == old(s.records) && s.length == old(s.length)
+//@   ensures  len: err == nil ==> s.length == old(s.length) + recLen(s.records[old(len(s.records))])
+//@   ensures  oldrecs: forall i in [0, old(len(s.records))): recSafe(s.records[i])
+//@   ensures  newrec:  err == nil ==> recOK(s.records[old(len(s.records))])
+//@   ensures  newdec:  err == nil && s.setType == Data ==> s.records[old(len(s.records))].(*dataRecord).isDecoding == s.isDecoding
+//@   ensures  inv: setInv(s)
+//@   modifies s.records, s.length, s.records[*]
+//@   loop 1 invariant cnt:  0 <= $i && $i <= len(elements)
+//@   loop 1 invariant ty:   (old(s.setType) == Data ==> is(record, *dataRecord)) && (old(s.setType) == Template ==> is(record, *templateRecord)) && (old(s.setType) == Data || old(s.setType) == Template)
+//@   loop 1 invariant data: is(record, *dataRecord) ==> recInv(record.(*dataRecord)) && fresh(record) && fresh(record.(*dataRecord).orderedElementList)
+//@           && record.(*dataRecord).fieldCount == $i && len(record.(*dataRecord).orderedElementList) == len(elements)
+//@           && isnil(record.(*dataRecord).buffer) && record.(*dataRecord).templateID == templateID && record.(*dataRecord).isDecoding == s.isDecoding
+//@           && (forall j in [0, $i): record.(*dataRecord).orderedElementList[j] == elements[j])
+//@   loop 1 invariant tpl:  is(record, *templateRecord) ==> tplInv(record.(*templateRecord), record.(*templateRecord).orderedElementList, $i) && fresh(record)
+//@           && fresh(record.(*templateRecord).orderedElementList) && fresh(record.(*templateRecord).buffer)
+//@           && record.(*templateRecord).index == $i && len(record.(*templateRecord).orderedElementList) == len(elements)
+//@           && record.(*templateRecord).templateID == templateID && record.(*templateRecord).fieldCount == len(elements) % 65536
+//@           && be16(record.(*templateRecord).buffer, 0) == templateID && be16(record.(*templateRecord).buffer, 2) == record.(*templateRecord).fieldCount
+//@           && (forall j in [0, $i): record.(*templateRecord).orderedElementList[j] == elements[j])
+//@   loop 1 decreases len(elements) - $i
+//@
+//@ func (s *set) AddRecord(elements, templateID) (err)
+//@   requires inv: setInv(s) && recsSafe(s)
+//@   requires el:  (s.setType == Data ==> elemsWF(elements, len(elements))) && (s.setType == Template ==> elemsNN(elements, len(elements)))
+//@   requires cnt: len(elements) <= 65535
+//@   ensures  okdata: old(s.setType) == Data ==> err == nil
+//@   ensures  errty:  old(s.setType) != Data && old(s.setType) != Template ==> err != nil
+//@   ensures  added: err == nil ==> len(s.records) == old(len(s.records)) + 1 && addedView(s.records[old(len(s.records))], elements, templateID, s.setType)
+//@   ensures  keep: forall i in [0, old(len(s.records))): s.records[i] == old(s.records[i])
+//@   ensures  errsame: err != nil ==> s.records == old(s.records) && s.length == old(s.length)
+//@   ensures  len: err == nil ==> s.length == old(s.length) + recLen(s.records[old(len(s.records))])
+//@   ensures  oldrecs: forall i in [0, old(len(s.records))): recSafe(s.records[i])
+//@   ensures  newrec:  err == nil ==> recOK(s.records[old(len(s.records))])
+//@   ensures  newdec:  err == nil && s.setType == Data ==> s.records[old(len(s.records))].(*dataRecord).isDecoding == s.isDecoding
+//@   ensures  inv: setInv(s)
+//@   modifies s.records, s.length, s.records[*]
+//@
+//@ func MakeDataSet(templateID, ies) (r, err)
+//@   requires el:  elemsWF(ies, len(ies)) && len(ies) <= 65535
+//@   ensures  ok:  err == nil && r != nil && fresh(r) && !r.isDecoding && r.setType == Data
+//@   ensures  one: len(r.records) == 1 && addedView(r.records[0], ies, templateID, Data)
+//@   ensures  hdr: len(r.headerBuffer) == 4 && be16(r.headerBuffer, 0) == templateID
+//@   ensures  inv: setInv(r) && recOK(r.records[0]) && r.length == 4 + recLen(r.records[0])
